@@ -47,6 +47,21 @@ def _has_prebuilt(node):
     return False
 
 
+def swallowed_by(root, a, b):
+    """A decoded result of the top-level search that covers [a,b) AND text beyond it on at least one side: the
+    indicator / blob together with neighbouring text satisfied another documented decoding, i.e. the surroundings
+    were not neutral for it (generator domain). Returns the node or None."""
+    stack = [(c, 0) for c in root.children]
+    while stack:
+        node, base = stack.pop()
+        s, e = base + node.start, base + node.end
+        if s <= a and b <= e and (s < a or b < e):
+            if not is_context(node):
+                return node
+            stack.extend((c, s) for c in node.children)
+    return None
+
+
 def expected_flatten(rec, payload_flat: bytes) -> bytes:
     cur = payload_flat
     for lay in reversed(rec["layers"]):
@@ -89,6 +104,13 @@ def judge_stack(rec, k, md, report, counts, fresh_md=None):
         if i >= kk:
             break
         node, why = find_layer(parent, lay, off, length)
+        if node is None and i == 0:
+            other = swallowed_by(root, off, off + length)
+            if other is not None:
+                counts["discarded:blob-plus-neighbour-text-is-another-decoding"] = counts.get("discarded:blob-plus-neighbour-text-is-another-decoding", 0) + 1
+                counts["stacks_judged"] -= 1
+                counts[f"stacks_height_{L}"] -= 1
+                return False
         if node is None:
             kind = "span" if why.startswith("matching node denotes") else "missing"
             report(f"layer:{kind}:{lay['name']}", f"layer {i + 1}/{L} ({lay['name']}: type {lay['type']!r} label {lay['label']!r}): {why}; {desc}")
